@@ -52,13 +52,23 @@ def extract(tier):
             r = common.rng("oprun", fam, json.dumps(params, sort_keys=True))
             sc = SCALARS_C if W.cplx else SCALARS_R
             fw, ad = [], []
-            for (lst, n, f) in ((fw, W.N, W.fwd), (ad, W.M, W.adj)):
+            cplx_in = W.kind == "real" and fam in zoo.COMPLEX_INPUT_OK
+            for (lst, n, f, raw) in ((fw, W.N, W.fwd, op.matvec), (ad, W.M, W.adj, op.rmatvec)):
                 xs = [l1.ivector(r, n, W.cplx) for _ in range(nextra)]
                 a, b = r.choice(sc), r.choice(sc)
                 xs.append(a * xs[0] + b * xs[1])       # exact (small integers)
                 xs.append(np.zeros(n, dtype=complex if W.cplx else float))
-                for x in xs:
-                    lst.append((x, np.array(f(x.copy()))))
+                # results are HELD (not copied) until all calls of this direction are made, so that an operator
+                # that hands out its internal buffer corrupts them and is seen
+                held = [f(x.copy()) for x in xs]
+                for x, y in zip(xs, held):
+                    lst.append((x, np.array(y)))
+                if cplx_in:
+                    # complex-linear operator of real dtype: Op(x + i y) = Op(x) + i Op(y), judged through the real matrix
+                    xr, xi = l1.ivector(r, n, False), l1.ivector(r, n, False)
+                    z = np.asarray(raw(xr + 1j * xi))
+                    lst.append((xr, np.array(z.real, dtype=float)))
+                    lst.append((xi, np.array(z.imag if np.iscomplexobj(z) else np.zeros(len(z)), dtype=float)))
                 lst.append(("comb", a, b))
             rec.update(A=A, B=B, fw=fw, ad=ad)
         except Exception as e:  # recorded, judged by the caller
